@@ -159,7 +159,15 @@ func main() {
 	workers := flag.Int("workers", 0, "number of workers")
 	replay := flag.String("replay", "", "replay file")
 	deadline := flag.Int("deadline", 0, "override the internal deadline in seconds")
+	free := flag.Int("free", 0, "conformance pass: run every scenario of the DAG family this many times free-running (use the -race build)")
 	flag.Parse()
+	if *free > 0 {
+		w, n := *worker, *workers
+		if w < 0 {
+			w, n = 0, 1
+		}
+		os.Exit(freeRunMain(*id, *free, w, n))
+	}
 	if d := os.Getenv("VERIF_DIR"); d != "" {
 		verifDir = d
 	}
